@@ -131,6 +131,8 @@ pub struct Cfg {
     #[serde(default)]
     pub ch_size: usize,
     #[serde(default)]
+    pub cf_size: usize,
+    #[serde(default)]
     pub ticket: bool,
     #[serde(default)]
     pub accept_early: bool,
@@ -777,6 +779,7 @@ impl World {
             });
             let mut cc = ToyClientConfig::new(seed ^ ((i as u64 + 1) << 32));
             cc.ch_size = cfg.ch_size;
+            cc.cf_size = cfg.cf_size;
             // the session ticket is held by the first client only; the others connect afresh
             if cfg.ticket && i == 0 {
                 cc.ticket = Some(toycrypto::Ticket {
